@@ -27,6 +27,9 @@ func c17Timer3(c *core.Ctx, k *core.Case) {
 		if d > t {
 			c.Fail(kk, "timer3-longer-than-requested", fmt.Sprintf("GPRSTimer3ToNas(%d) = %#02x, which decodes to %d s", t, o, d))
 		}
+		if t%499 == 0 || refconv.Timer3Representable(t) {
+			c.NonTrivial(core.HashU64(33, uint64(t)))
+		}
 		if refconv.Timer3Representable(t) {
 			c.Count("timer3_representable", 1)
 			if d != t {
@@ -51,6 +54,9 @@ func c17Timer2(c *core.Ctx, k *core.Case) {
 		if d > t {
 			c.Fail(kk, "timer2-longer-than-requested", fmt.Sprintf("GPRSTimer2ToNas(%d) = %#02x, which decodes to %d s", t, o, d))
 		}
+		if t%7 == 0 || refconv.Timer2Representable(t) {
+			c.NonTrivial(core.HashU64(22, uint64(t)))
+		}
 		if refconv.Timer2Representable(t) {
 			c.Count("timer2_representable", 1)
 			if d != t {
@@ -68,6 +74,9 @@ var ambrUnits = []string{"Kbps", "Mbps", "Gbps", "Tbps", "Pbps"}
 func c17Ambr(c *core.Ctx, k *core.Case) {
 	var n int64
 	for v := int(k.I[0]); v < int(k.I[1]); v++ {
+		if v%61 == 0 {
+			c.NonTrivial(core.HashU64(44, uint64(v)))
+		}
 		for ui, unit := range ambrUnits {
 			// the other direction carries a different value and unit, so a swap would show
 			ov, ou := (v*31+7)&0xffff, ambrUnits[(ui+2)%5]
@@ -136,6 +145,7 @@ func c17Zones(c *core.Ctx, k *core.Case) {
 				continue
 			}
 			n++
+			c.NonTrivial(core.HashU64(55, uint64((q+100)*4+dst)))
 			c17ZoneOne(c, &core.Case{Oracle: "zone-one", Target: "nasConvert.EncodeLocalTimeZoneToNas", S: []string{text}, I: []int64{int64(sum)}})
 		}
 	}
